@@ -45,9 +45,16 @@ def main():
         wait_for(args["barrier_dir"], args["n"], "r%d" % os.getpid(), 20)
         db = gffutils.FeatureDB(args["db"])
         feats = [[f.id, str(f)] for f in db.all_features()]
+        # region / limit queries are reads too
+        seqids = sorted(set(f[1].split("\t")[0] for f in feats))
+        region_hits = {}
+        for sid in seqids[:4]:
+            region_hits[sid] = [sorted(f.id for f in db.region((sid, 1, 10 ** 7), completely_within=True)),
+                                sorted(f.id for f in db.region(seqid=sid, start=1, end=10 ** 7)),
+                                sorted(f.id for f in db.all_features(limit=(sid, 1, 10 ** 7), completely_within=True))]
         rel = sorted(list(map(list, db.execute("SELECT parent, child, level FROM relations"))))
         kids = {f[0]: sorted(c.id for c in db.children(f[0])) for f in feats[:50]}
-        out = {"features": feats, "relations": rel, "children": kids, "directives": list(db.directives),
+        out = {"features": feats, "relations": rel, "children": kids, "directives": list(db.directives), "region_hits": region_hits,
                "dialect": db.dialect, "count": db.count_features_of_type()}
         json.dump(out, open(args["out"], "w"))
         return 0
@@ -119,7 +126,11 @@ def main():
         err = repr(ex)
     import gc
     gc.collect()
-    json.dump({"pid": os.getpid(), "log": log, "barrier": state["barrier"], "error": err, "t0": t0, "t1": time.time()},
+    # the import has finished (this process is still alive): which of the temp files this process created are still there?
+    mine = set(name for ev, name, mode, t in log if ev == "mkstemp")
+    still_there = sorted(n for n in mine if os.path.exists(os.path.join(tmpdir, n)))
+    json.dump({"pid": os.getpid(), "log": log, "barrier": state["barrier"], "error": err, "t0": t0, "t1": time.time(),
+               "still_there_after_import": still_there},
               open(args["result"], "w"))
     return 0
 
